@@ -21,6 +21,7 @@ from vtlengine.API._InternalApi import (
 )
 from vtlengine.API._sdmx_utils import _build_mapping_dict, _convert_sdmx_mappings
 from vtlengine.AST import Start
+from vtlengine import _verif
 from vtlengine.AST.ASTConstructor import ASTVisitor
 from vtlengine.AST.ASTString import ASTString
 from vtlengine.AST.DAG import DAGAnalyzer
@@ -90,8 +91,10 @@ def create_ast(text: str) -> Start:
     # The C++ parser holds the parse tree in process-global state and hands Python
     # raw pointers into it, so parse() and the lazy tree traversal in visitStart()
     # must run under parser_lock to stay safe across threads (see parser_lock docs).
+    _verif.yield_point("parse.enter")
     with parser_lock:
         cst = vtl_cpp_parser.parse(text)
+        _verif.yield_point("parse.parsed")
         error = vtl_cpp_parser.get_syntax_error()
         if error is not None:
             raise VTLSyntaxError(
@@ -103,6 +106,7 @@ def create_ast(text: str) -> Start:
             )
         visitor = ASTVisitor()
         ast = visitor.visitStart(cst)
+    _verif.yield_point("parse.exit")
     DAGAnalyzer.create_dag(ast)
     return ast
 
